@@ -50,10 +50,11 @@ CHECKS["C09"] = dict(level="model_checking", design_ref="DESIGN.md 5/C09",
          "from an arbitrary pre-state satisfying the invariant, with every upstream quantity an arbitrary double under its IEEE contract: "
          "post-weights finite, >= 0, <= 100, not NaN; phaseless factor in {0} u [1e-3,100] and equal to the documented rule; dead stays dead; "
          "shift finite while a walker is alive (and back inside the pre-state bound for CPMC). One inductive step covers histories of any length. "
-         "Candidates are reported only when a hostile concrete state - one that a real history reaches - reproduces them on the real function.",
+         "Candidates are reported only when a hostile concrete state - one that a real history reaches - reproduces them on the real function. "
+         "The killed-walker fraction every sampler entry point reports equals its own clip to [0,1] for arbitrary block weights (Q domain, z3 LRA).",
     note="Trusted: z3 5.1 and cvc5 1.0.3; products / quotients / sums of two symbolic doubles are uninterpreted with lemma instances, each lemma "
          "discharged against the exact IEEE operation in the same run; JAX tracing; libm contracts for exp / log / erf. Weights in (0,1e-300), "
-         "|dt*shift| > 590 and |dt*e_estimate| > 500 are outside the claim. The killed-walker counter is not an obligation.")
+         "|dt*shift| > 590 and |dt*e_estimate| > 500 are outside the claim.")
 CHECKS["C15"] = dict(level="model_checking", design_ref="DESIGN.md 5/C15",
     technique="symbolic execution of the traced jaxpr + z3 polynomial identities (congruence for every real C; invariance under Cayley-orthogonal C)",
     text="rotate_orbs output equals C^T X C elementwise for every real matrix C and every h1/chol at norb 2,3; energies, force biases "
